@@ -123,7 +123,7 @@ pub fn run_nbin(d: D, op: &str, l: &NIv, r: &NIv, all: bool) -> Result<Stat, Str
                         let Some(v) = arith_value(d, d, *rdm, ar, x, y) else { continue };
                         st.checks += 1;
                         if !rdm.within(riv.lo, riv.hi, v) {
-                            return Err(format!("{} does not contain {} = {}", head(), desc(a, b), rdm.show(v)));
+                            return Err(format!("@value@{} does not contain {} = {}", head(), desc(a, b), rdm.show(v)));
                         }
                     }
                     _ => {
@@ -155,7 +155,10 @@ pub fn run_nbin(d: D, op: &str, l: &NIv, r: &NIv, all: bool) -> Result<Stat, Str
                 };
                 st.checks += 1;
                 if !nb_contains(&res, t)? {
-                    return Err(format!("{} does not contain {} = {}", head(), desc(a, b), show_t(t)));
+                    // a wrong truth value for two non-null members is the plain
+                    // Interval comparison's business (same root cause, same class)
+                    let tag = if a.is_some() && b.is_some() && !op.starts_with("Is") { "@value@" } else { "" };
+                    return Err(format!("{tag}{} does not contain {} = {}", head(), desc(a, b), show_t(t)));
                 }
             }
         }
